@@ -796,4 +796,15 @@ theorem padic_radix_eval (p : Nat) (hp : 2 ≤ p) (P : List Nat) (hd : ∀ d ∈
 
 example : ∃ (p : Nat) (P : List Nat), 2 ≤ p ∧ (∀ d ∈ P, d < p) ∧ P.getLast? ≠ some 0 := ⟨2, [1], by decide, by simp, by simp⟩
 
+/-- the direct conversions: `radixdirect(P, E, n)` (integral `E`) writes exactly `n` canonical digits whose value is
+    `E mod p^n` (so `E` itself when `E < p^n`), and `evaldirect` is the Horner value — every `p ≥ 1`, `n`, `E`, every vector -/
+theorem padic_direct_exact (p : Nat) (hp : 1 ≤ p) (n E : Nat) (P : List Nat) :
+    (Givaro.Model.Padic.radixDirect p n E).length = n ∧ (∀ d ∈ Givaro.Model.Padic.radixDirect p n E, d < p) ∧
+    Givaro.Model.Padic.eval p (Givaro.Model.Padic.radixDirect p n E) = E % p ^ n ∧
+    Givaro.Model.Padic.evalDirect p P = Givaro.Model.Padic.eval p P :=
+  ⟨(Givaro.Lemmas.PolyMore.radixDirect_spec p hp n E).1, (Givaro.Lemmas.PolyMore.radixDirect_spec p hp n E).2.1,
+   (Givaro.Lemmas.PolyMore.radixDirect_spec p hp n E).2.2, Givaro.Lemmas.PolyMore.evalDirect_eq p P⟩
+
+example : ∃ p : Nat, 1 ≤ p := ⟨2, by decide⟩
+
 end Givaro.Props.C08
